@@ -207,7 +207,9 @@ TASK_CNT = '''
         let f0 = cl.{f0}();
         let f1 = cl.fil();
         let got = task(&it, &f0, &f1, c);
-        let mut total = 0;
+        // value first (C04), call counts afterwards (C05): a failed assertion ends the path
+        let (_exp, _keys, total) = worker_outputs(&cl, Kind::{kind}, data, n, c, mine);
+        assert!(got == total, "C04: the worker's count differs from the number of survivors among its elements");
         let mut i = 0;
         let mut rejected = false;
         while i < n {
@@ -218,13 +220,11 @@ TASK_CNT = '''
                 if cnt == 0 {
                     rejected = true;
                 }
-                total += cnt;
             } else {
                 assert!(log.calls(ST_MAP, i) == 0 && log.calls(ST_FIL, i) == 0, "C05: closure called on an element delivered to another worker");
             }
             i += 1;
         }
-        assert!(got == total, "C04: the worker's count differs from the number of survivors among its elements");
         pull_log_ok(&log);
         kani::cover!(rejected);
         kani::cover!(total >= 1);
@@ -239,39 +239,41 @@ TASK_RED = '''
         let f1 = cl.fil();
         let r = red(&log, op);
         let got = task(&it, &f0, &f1, &r, c);
-        let mut total = 0;
-        let mut acc: u8 = 0;
-        let mut i = 0;
-        let mut rejected = false;
-        while i < n {
-            if mine[i / c] {
-                let (out, cnt) = cl.expand(Kind::{kind}, i as u8, data[i]);
-                assert!(log.calls(ST_MAP, i) == 1, "C05: first-stage closure not called exactly once on a delivered element");
-                assert!(log.calls(ST_FIL, i) == cl.fil_calls(Kind::{kind}, data[i]), "C05: filter call count differs from the sequential chain");
-                if cnt == 0 {
-                    rejected = true;
-                }
-                let mut q = 0;
-                while q < cnt {
-                    acc = if total == 0 { out[q].v } else { apply(op, acc, out[q].v) };
-                    total += 1;
-                    q += 1;
-                }
-            } else {
-                assert!(log.calls(ST_MAP, i) == 0 && log.calls(ST_FIL, i) == 0, "C05: closure called on an element delivered to another worker");
-            }
-            i += 1;
-        }
+        // value first (C03), call counts afterwards (C05): a failed assertion ends the path
+        let (exp, _keys, total) = worker_outputs(&cl, Kind::{kind}, data, n, c, mine);
         match got {
             None => assert!(total == 0, "C03: None although an element survives"),
             Some(e) => {
                 assert!(total >= 1, "C03: a value although nothing survives");
+                let mut acc = exp[0].v;
+                let mut j = 1;
+                while j < {maxout} {
+                    if j < total {
+                        acc = apply(op, acc, exp[j].v);
+                    }
+                    j += 1;
+                }
                 assert!(e.v == acc, "C03: the worker's accumulator is not the fold of its survivors");
             }
         }
         // every survivor is combined exactly once: survivors - 1 operator calls
         let ncalls = log.total(ST_P);
         assert!(ncalls + 1 == total || (total == 0 && ncalls == 0), "C03: number of reduce calls is not survivors - 1");
+        let mut i = 0;
+        let mut rejected = false;
+        while i < n {
+            if mine[i / c] {
+                let (_out, cnt) = cl.expand(Kind::{kind}, i as u8, data[i]);
+                assert!(log.calls(ST_MAP, i) == 1, "C05: first-stage closure not called exactly once on a delivered element");
+                assert!(log.calls(ST_FIL, i) == cl.fil_calls(Kind::{kind}, data[i]), "C05: filter call count differs from the sequential chain");
+                if cnt == 0 {
+                    rejected = true;
+                }
+            } else {
+                assert!(log.calls(ST_MAP, i) == 0 && log.calls(ST_FIL, i) == 0, "C05: closure called on an element delivered to another worker");
+            }
+            i += 1;
+        }
         pull_log_ok(&log);
         kani::cover!(rejected);
         kani::cover!(total >= 1);
@@ -372,6 +374,11 @@ STUBS_ALL = """    #[kani::stub(crate::core::runner::Runner::run, crate::core::v
     #[kani::stub(crate::core::runner::Runner::reduce, crate::core::verif_kani::stub_reduce)]
     #[kani::stub(crate::core::map_fil_col::heap_sort_into_vec, crate::core::verif_kani::stub_heap_sort_into_vec)]
     #[kani::stub(crate::core::map_fil_col::heap_sort_into_pinned_vec, crate::core::verif_kani::stub_heap_sort_into_pinned_vec)]
+"""
+
+FORBID_COLX = """    #[kani::stub(crate::core::map_fil_col_x::par_map_fil_col_x_rec, crate::core::verif_kani::forbid_map_col_x)]
+    #[kani::stub(crate::core::filtermap_fil_col_x::par_filtermap_fil_col_x_rec, crate::core::verif_kani::forbid_filtermap_col_x)]
+    #[kani::stub(crate::core::flatmap_fil_col_x::par_flatmap_fil_col_x_rec, crate::core::verif_kani::forbid_flatmap_col_x)]
 """
 
 FORBID_ALL = """    #[kani::stub(crate::core::runner::Runner::run, crate::core::verif_kani::forbid_run)]
@@ -892,7 +899,7 @@ API_SHAPES_FLAT = {
 # which (chain, terminal) pairs are in the quick tier (the rest is thorough)
 QUICK_API = {
     # (chain, terminal): measured < ~130 s per harness in both modes
-    ('empty', 'collect_vec'), ('fil', 'collect_vec'), ('fmap', 'collect_vec'), ('map_fil', 'collect_vec'), ('map', 'collect_x'),
+    ('empty', 'collect_vec'), ('fil', 'collect_vec'), ('fmap', 'collect_vec'), ('map_fil', 'collect_vec'), ('map', 'collect_x'), ('fil', 'collect_x'),
     ('empty', 'count'), ('map_fil', 'count'), ('fil', 'for_each'),
     ('map_fil', 'reduce'), ('fil', 'fold'), ('map', 'min_by_key'), ('map_fil', 'sum'),
     ('map_fil', 'find'), ('fil', 'first'), ('map', 'any'), ('fmap_fil', 'all'), ('empty', 'find'), ('fil_fil', 'find'),
@@ -949,6 +956,8 @@ def gen_api():
                     pr = tprops[0]
                     par = mode.startswith('par2')
                     stubs = STUBS_ALL if par else FORBID_ALL
+                    if par and term in ('collect_vec', 'collect') or term.startswith('into_'):
+                        stubs = stubs + FORBID_COLX
                     workers = 2 if par else 1
                     params = 'par_params(2, %d)' % c if par else 'seq_params()'
                     body = []
@@ -1044,7 +1053,7 @@ use crate::{ChunkSize, NumThreads, Par, Params};
             eager = (chain, meth) in EAGER_SITES
             name = 'k_lazy_%s_%s' % (chain, meth)
             b = []
-            b.append('#[kani::proof]\n#[kani::unwind(%d)]\n%sfn %s() {' % (10 if eager else 4, STUBS_ALL.replace('    #[', '#['), name))
+            b.append('#[kani::proof]\n#[kani::unwind(%d)]\n%sfn %s() {' % (10 if eager else 4, (STUBS_ALL + FORBID_COLX).replace('    #[', '#['), name))
             b.append('    let log = Log::new();')
             if eager and (chain, meth) in LAZY_EMPTY_SOURCE:
                 b.append('    // eager materialisation over an EMPTY source: the kernels run (and pull once), no data flows')
